@@ -37,6 +37,8 @@ pub enum Op {
     Move(Mv),
     SetBoard(String),
     Evaluate(u64),
+    /// submit the move the last `evaluate` proposed (whatever it was) with make_move
+    SubmitSuggestion,
 }
 
 fn op_json(o: &Op) -> Value {
@@ -44,12 +46,15 @@ fn op_json(o: &Op) -> Value {
         Op::Move(m) => json!({"move": m.uci()}),
         Op::SetBoard(f) => json!({"set_board": f}),
         Op::Evaluate(k) => json!({"evaluate": k}),
+        Op::SubmitSuggestion => json!({"submit_suggestion": true}),
     }
 }
 
 fn op_from(v: &Value) -> Op {
     if let Some(m) = v["move"].as_str() {
         Op::Move(Mv::parse(m).unwrap())
+    } else if v["submit_suggestion"].as_bool() == Some(true) {
+        Op::SubmitSuggestion
     } else if let Some(f) = v["set_board"].as_str() {
         Op::SetBoard(f.to_string())
     } else {
@@ -80,13 +85,27 @@ pub fn run_history(ops: &[Op]) -> (u64, u64, Vec<Divergence>) {
         let mut rs = RefState::new(Position::start());
         let mut flags = 0u64;
         let mut steps = 0u64;
+        let mut suggestion: Option<Mv> = None;
         let hist = |i: usize| ops[..=i].iter().map(|o| match o { Op::Move(m) => m.uci(), other => format!("{other:?}") }).collect::<Vec<_>>().join(" ");
         if diff_position(&read_back(&eng.board()), &rs.pos).is_some() {
             d.push(Divergence::new("plugin-initial-board-wrong", "a fresh engine does not hold the standard position"));
         }
         for (i, op) in ops.iter().enumerate() {
             steps += 1;
+            // a suggestion is submitted like any other move
+            let submitted;
+            let op = match op {
+                Op::SubmitSuggestion => match suggestion {
+                    Some(m) => {
+                        submitted = Op::Move(m);
+                        &submitted
+                    }
+                    None => continue,
+                },
+                other => other,
+            };
             match op {
+                Op::SubmitSuggestion => unreachable!(),
                 Op::SetBoard(fen) => {
                     let p = Position::from_fen(fen).unwrap();
                     let Ok(b) = parse_board(fen) else { continue };
@@ -139,6 +158,7 @@ pub fn run_history(ops: &[Op]) -> (u64, u64, Vec<Divergence>) {
                     let t = CountingTimeout::new(*k);
                     let before = eng.board();
                     let (mv, _score) = eng.evaluate(&t);
+                    suggestion = mv.map(ref_mv);
                     if let Some(m) = mv {
                         if !rs.pos.legal_moves().contains(&ref_mv(m)) {
                             d.push(Divergence::new("plugin-proposes-illegal-move", format!("[{}]: proposes {}", hist(i), ref_mv(m).uci())));
@@ -271,6 +291,69 @@ pub fn c15_histories(tier: Tier) -> Vec<Vec<Op>> {
             }
         }
     }
+    // four-ply cycles through every catalogue root: set_board(root), then each cycle three times,
+    // so that the installed position (and the positions on the cycle) reach their third occurrence
+    {
+        let (roots, _) = crate::roots::all_roots();
+        for r in roots.iter() {
+            let fen = r.pos.to_fen();
+            if parse_board(&fen).is_err() || r.name.starts_with("perft0") || r.name.starts_with("perft27") || r.name.starts_with("perft30") || r.name.starts_with("perft31") {
+                continue;
+            }
+            let id0 = r.pos.identity();
+            let mut found = 0;
+            'search: for m1 in r.pos.legal_moves() {
+                let p1 = r.pos.make(m1);
+                for m2 in p1.legal_moves() {
+                    let p2 = p1.make(m2);
+                    for m3 in p2.legal_moves() {
+                        // the mover goes back where it came from (keeps the search small)
+                        if m3.from != m1.to || m3.to != m1.from {
+                            continue;
+                        }
+                        let p3 = p2.make(m3);
+                        for m4 in p3.legal_moves() {
+                            if m4.from != m2.to || m4.to != m2.from {
+                                continue;
+                            }
+                            if p3.make(m4).identity() == id0 {
+                                let mut h = vec![Op::SetBoard(fen.clone())];
+                                for _ in 0..3 {
+                                    h.extend([Op::Move(m1), Op::Move(m2), Op::Move(m3), Op::Move(m4)]);
+                                }
+                                out.push(h);
+                                found += 1;
+                                if found >= tier.pick(8, 40) {
+                                    break 'search;
+                                }
+                            }
+                        }
+                    }
+                }
+            }
+        }
+    }
+    // the plugin's own suggestion submitted back: at once (legal, must be applied like any move),
+    // after another move, and after a set_board to a position where it may be illegal
+    {
+        let other_boards = ["rnbqkbnr/pppppppp/8/8/8/8/PPPPPPPP/RNBQKBNR b KQkq - 0 1", "4k3/8/8/8/8/8/8/4K3 w - - 0 1", "r1bqkb1r/pppppppp/2n2n2/8/8/2N2N2/PPPPPPPP/R1BQKB1R w KQkq - 4 2"];
+        let prefixes: Vec<Vec<Op>> = vec![vec![], vec![Op::Move(mv("e2e4"))], vec![Op::Move(mv("g1f3")), Op::Move(mv("g8f6"))], vec![Op::SetBoard(boards[2].to_string())]];
+        for pre in &prefixes {
+            for k in [30u64, 120, 600] {
+                let mut a = pre.clone();
+                a.extend([Op::Evaluate(k), Op::SubmitSuggestion, Op::SubmitSuggestion]);
+                out.push(a);
+                for ob in other_boards {
+                    let mut b = pre.clone();
+                    b.extend([Op::Evaluate(k), Op::SetBoard(ob.to_string()), Op::SubmitSuggestion, Op::Evaluate(k), Op::SubmitSuggestion]);
+                    out.push(b);
+                }
+                let mut c = pre.clone();
+                c.extend([Op::Evaluate(k), Op::Move(mv("a2a3")), Op::Move(mv("a7a6")), Op::SubmitSuggestion]);
+                out.push(c);
+            }
+        }
+    }
     // evaluate interleaved: a proposal must be legal and must not disturb board or counting
     let mut with_eval = vec![];
     for (i, h) in out.iter().enumerate() {
@@ -319,7 +402,7 @@ pub fn run_c15(args: &crate::Args) -> i32 {
             "traces_validated_against_impl": hs.len(),
             "evaluations": hs.len(),
             "distinct_nontrivial": with_flag,
-            "rule": "every maximal history over three move alphabets from a fresh plugin engine (knight shuffles to depth 16/20 so positions must recur; knights + rook h1-g1-h1 / h8-g8-h8 to depth 12/14 so placements recur with different castling rights; a rich alphabet with double steps, capture and castling to depth 6/7), every alphabet move that is illegal at a leaf submitted there, set_board of three boards before and after shuffling followed by shuffles to depth 12/14, and every knight-shuffle history of depth 12/14 with one or two illegal submissions inserted at every position; set_board of every catalogue root followed by every legal move sequence of length <= 2 (promotions, en passant, castling through the stable move encoding); a strided subset re-run with evaluate calls interleaved. Each step is checked against the reference board and an occurrence counter that counts the installed position. states/transitions = plugin calls checked; non-trivial = histories in which a third occurrence is reached.",
+            "rule": "every maximal history over three move alphabets from a fresh plugin engine (knight shuffles to depth 16/20 so positions must recur; knights + rook h1-g1-h1 / h8-g8-h8 to depth 12/14 so placements recur with different castling rights; a rich alphabet with double steps, capture and castling to depth 6/7), every alphabet move that is illegal at a leaf submitted there, set_board of three boards before and after shuffling followed by shuffles to depth 12/14, and every knight-shuffle history of depth 12/14 with one or two illegal submissions inserted at every position; set_board of every catalogue root followed by every legal move sequence of length <= 2 (promotions, en passant, castling through the stable move encoding); set_board of every catalogue root followed by up to 8 (thorough 40) four-ply cycles back to it, each played three times; the plugin's own suggestion submitted back at once, after other moves, and after a set_board to another position; a strided subset re-run with evaluate calls interleaved. Each step is checked against the reference board and an occurrence counter that counts the installed position. states/transitions = plugin calls checked; non-trivial = histories in which a third occurrence is reached.",
             "histories": hs.len(),
             "third_occurrences_reached": flags,
             "exhaustive": true,
